@@ -14,7 +14,7 @@ RULE = ("state = digest of (subscription table: id -> ordered handlers with deta
         "dispatched while at least one handler is or was attached")
 ASSUMPTIONS = [
     "<= 3 handlers, <= 2 subscription ids, two topics (the first subscribe uses the first topic: the "
-    "topics are interchangeable), histories up to depth 7",
+    "topics are interchangeable), histories up to depth 7 (quick) / 8 (thorough)",
     "handler kinds: plain, SubscribeOptions(details=True), SubscribeOptions(details_arg='info'), and "
     "one decorated object with two @wamp.subscribe methods on the same topic (one with details)",
     "per dispatch at most one handler misbehaves: raises, or unsubscribes one attached handler "
@@ -38,7 +38,7 @@ NEVER_HELD = 9999
 
 def main(ctx):
     tier = ctx.tier
-    depth = 7
+    depth = 8 if tier == "thorough" else 7
     jobs = []
     for f in [["sub", 0, m] for m in MODES] + [["subobj"]]:
         rids = [1, 2] if f == ["subobj"] else [1]
@@ -707,7 +707,7 @@ def replay(a):
 
 
 MANIFEST = {
-    "text": "Explicit-state BFS (depth 7) over histories of subscribe (two topics; plain / details=True / "
+    "text": "Explicit-state BFS (depth 7 quick / 8 thorough) over histories of subscribe (two topics; plain / details=True / "
             "details_arg handlers; a decorated object with two @wamp.subscribe methods), SUBSCRIBED "
             "with a fresh or an already held subscription id, subscribe ERROR, unsubscribe of any "
             "attached handler, UNSUBSCRIBED / ERROR, and EVENT for every held, racing, released and "
